@@ -31,6 +31,7 @@ ASSUMPTIONS = [
 N_CASES = {'quick': 480, 'thorough': 100000}
 BUDGET_S = {'quick': 220, 'thorough': 3600}
 BAND = 1e-4
+MAX_CLASSIFY = 1000  # every miss is classified individually (a unit has a few hundred atom-frames)
 K1 = 'K1-mdanalysis-pkdtree-skewed-box'
 K9 = 'K9-automatic-radius-single-site'
 
@@ -119,7 +120,7 @@ def check_assignment(ctx, what, m, pos, site_frac, radii, f, states, inner, disj
         # a site that is not within its radius
         valid = (arr >= 0) & (arr < S)
         wrong = np.nonzero((arr >= S) | (arr < -1) | (valid & ~may[np.arange(len(arr)), np.clip(arr, 0, S - 1)]))[0]
-        for k in miss[:50]:
+        for k in miss[:MAX_CLASSIFY]:
             s = int(np.argmax(must[k]))
             try:
                 grp = site_group(groups, s, S)
@@ -133,7 +134,7 @@ def check_assignment(ctx, what, m, pos, site_frac, radii, f, states, inner, disj
             else:
                 n_bad += 1
                 ctx.violation(f'{what}: {name} of atom {a} at frame {t} reported as none although site {s} is {d[k, s]:.5f} A away (radius {radii[s] * fac:.5f})', {**wit, 'atom': a, 'frame': t, 'position': flat[k], 'site': s, 'distance': d[k, s]})
-        if len(miss) > 50:
+        if len(miss) > MAX_CLASSIFY:
             n_bad += 1
             ctx.violation(f'{what}: {len(miss)} atom-frames reported as no {name} although a site is within its radius', wit)
         for k in wrong[:3]:
